@@ -6,6 +6,11 @@ package main
 //	before <func> <calleeA> <calleeB> [props=..]
 //	    every call of calleeB in <func> is dominated by a call of calleeA
 //	    (e.g. the random bytes are read before they are encoded)
+//	    (a call of calleeB inside a closure that <func> defers counts as
+//	    happening at each return of <func>)
+//	frozen <pkg.Type>.<field> [props=..]
+//	    no function of the repository stores to that field (e.g. the remote
+//	    address of a request, which the authentication decision reads)
 //	detached <func> [props=..]
 //	    a goroutine started by <func> (directly or in one of its closures)
 //	    receives no value derived from a context.Context parameter of <func>:
@@ -49,7 +54,11 @@ func flowOrderClauses(w *World, prop string) []*Obligation {
 	for _, pp := range pkgPaths {
 		rel := strings.TrimPrefix(pp, repoMod+"/")
 		for _, g := range w.files[pp].Guards {
-			if !hasProp(g.Props, prop) || (g.Kind != "before" && g.Kind != "detached") {
+			if !hasProp(g.Props, prop) || (g.Kind != "before" && g.Kind != "detached" && g.Kind != "frozen") {
+				continue
+			}
+			if g.Kind == "frozen" {
+				obls = append(obls, frozenField(w, prop, rel, g))
 				continue
 			}
 			fn := w.findFunc(pp, g.Func)
@@ -65,7 +74,53 @@ func flowOrderClauses(w *World, prop string) []*Obligation {
 					blk *ssa.BasicBlock
 					idx int
 				}
+				// closures that fn defers: their calls happen at fn's returns
+				deferred := map[*ssa.Function]bool{}
+				var fnAs []site
+				for _, blk := range fn.Blocks {
+					for i, ins := range blk.Instrs {
+						if d, isDefer := ins.(*ssa.Defer); isDefer {
+							if mc, isMC := d.Call.Value.(*ssa.MakeClosure); isMC {
+								deferred[mc.Fn.(*ssa.Function)] = true
+							}
+						}
+						if c, isCall := ins.(ssa.CallInstruction); isCall && calleeMatches(calleeName(c.Common()), a) {
+							if _, isDefer := ins.(*ssa.Defer); !isDefer {
+								fnAs = append(fnAs, site{blk, i})
+							}
+						}
+					}
+				}
 				for _, f := range anonClosure(fn) {
+					if deferred[f] {
+						for _, blk := range f.Blocks {
+							for _, ins := range blk.Instrs {
+								c, isCall := ins.(ssa.CallInstruction)
+								if !isCall || !calleeMatches(calleeName(c.Common()), b) {
+									continue
+								}
+								nB++
+								for _, rb := range fn.Blocks {
+									for ri, rins := range rb.Instrs {
+										if _, isRD := rins.(*ssa.RunDefers); !isRD {
+											continue
+										}
+										dom := false
+										for _, s := range fnAs {
+											if s.blk == rb && s.idx < ri || s.blk != rb && s.blk.Dominates(rb) {
+												dom = true
+											}
+										}
+										if !dom {
+											ok = false
+											detail += fmt.Sprintf("the deferred %s runs at a return that no %s precedes: %s\n", b, a, srcLine(w, fn, insPos(rins)))
+										}
+									}
+								}
+							}
+						}
+						continue
+					}
 					var as []site
 					for _, blk := range f.Blocks {
 						for i, ins := range blk.Instrs {
@@ -185,4 +240,43 @@ func flowOrderClauses(w *World, prop string) []*Obligation {
 func isContextType(t types.Type) bool {
 	n, ok := t.(*types.Named)
 	return ok && n.Obj().Pkg() != nil && n.Obj().Pkg().Path() == "context" && n.Obj().Name() == "Context"
+}
+
+func frozenField(w *World, prop, rel string, g *GuardClause) *Obligation {
+	// g.Type = "http.Request" (package name + type), g.Fields[0] = field
+	ok, detail, seenType := true, "", false
+	var pps []string
+	for pp := range w.spkgs {
+		if strings.HasPrefix(pp, repoMod) {
+			pps = append(pps, pp)
+		}
+	}
+	sort.Strings(pps)
+	for _, pp := range pps {
+		for _, fn := range allFuncs(w.spkgs[pp]) {
+			for _, blk := range fn.Blocks {
+				for _, ins := range blk.Instrs {
+					st, isStore := ins.(*ssa.Store)
+					if !isStore {
+						continue
+					}
+					fa, isFA := st.Addr.(*ssa.FieldAddr)
+					if !isFA {
+						continue
+					}
+					n := namedOfPtr(fa.X.Type())
+					if n == nil || n.Obj().Pkg() == nil || n.Obj().Pkg().Name()+"."+n.Obj().Name() != g.Type {
+						continue
+					}
+					seenType = true
+					if structFieldName(fa) == g.Fields[0] {
+						ok = false
+						detail += fmt.Sprintf("%s stores to %s.%s: %s\n", fn.String(), g.Type, g.Fields[0], srcLine(w, fn, insPos(ins)))
+					}
+				}
+			}
+		}
+	}
+	_ = seenType
+	return flowObl(prop, rel+":frozen["+g.Type+"."+g.Fields[0]+"]", "no function of the repository stores to "+g.Type+"."+g.Fields[0], ok, detail)
 }
